@@ -706,13 +706,22 @@ func CreateUpdateMsgFromPaths(pathList []*Path, options ...*bgp.MarshallingOptio
 
 	// Since sendMessageloop coalesces outgoing BGP UPDATE messages and
 	// the packers emit withdrawals before announcements, we should keep only the
-	// last action for each NLRI/path-id within one packing pass.
+	// last action for each NLRI/path-id within one packing pass. The local
+	// path id only tells routes apart for the receiver when ADD-PATH is sent
+	// for the family; otherwise successive changes of one prefix (which may
+	// carry different local ids) replace each other.
+	key := func(path *Path) PathLocalKey {
+		if bgp.IsAddPathEnabled(false, path.GetFamily(), options) {
+			return path.GetLocalKey()
+		}
+		return PathLocalKey{PathDestLocalKey: path.GetDestLocalKey()}
+	}
 	last := make(map[PathLocalKey]*Path, len(pathList))
 	for _, path := range pathList {
 		if path == nil || path.IsEOR() {
 			continue
 		}
-		last[path.GetLocalKey()] = path
+		last[key(path)] = path
 	}
 
 	m := make(map[bgp.Family]packerInterface)
@@ -732,7 +741,7 @@ func CreateUpdateMsgFromPaths(pathList []*Path, options ...*bgp.MarshallingOptio
 			add(path)
 			continue
 		}
-		if last[path.GetLocalKey()] != path {
+		if last[key(path)] != path {
 			continue
 		}
 		add(path)
